@@ -1,4 +1,5 @@
 import GaeaVerif.Model.Modify
+import GaeaVerif.Model.ModifyStmt
 /-
   C05 — UPDATE and DELETE affect exactly the matching rows and never move a row.
   Theorems about `Model/Modify.lean` on top of C01's `route_inv`/`route_sound`.
@@ -213,17 +214,17 @@ theorem on_dup_reject (key : String) (ts : List Target) :
 
 /-! ### Non-vacuity -/
 
-example : handleUpdateAssignmentList "k" [⟨.none, "o"⟩, ⟨.alias, "v"⟩] = .accept := by decide
-example : handleUpdateAssignmentList "k" [⟨.none, "o"⟩, ⟨.alias, "k"⟩] = .rejectKey := by decide
-example : handleInsertOnDuplicate "k" [⟨.table, "k"⟩] = .rejectKey := by decide
+example : handleUpdateAssignmentList "k" [{ qual := .none, name := "o" }, { qual := .alias, name := "v" }] = .accept := by decide
+example : handleUpdateAssignmentList "k" [{ qual := .none, name := "o" }, { qual := .alias, name := "k" }] = .rejectKey := by decide
+example : handleInsertOnDuplicate "k" [{ qual := .table, name := "k" }] = .rejectKey := by decide
 
 /-- `exec_sum` on a concrete instance: 4 range tables of 100 rows, rows 5, 150, 250;
     `UPDATE … WHERE k < 200` is routed to tables 0 and 1 and reports 2 rows. -/
 example :
     let c := Cond.cmp true false .lt (rangeLit 100 4 200)
     let tbl : Int → List Row := fun i =>
-      if i = 0 then [⟨5, fun _ => none⟩] else if i = 1 then [⟨150, fun _ => none⟩]
-      else if i = 2 then [⟨250, fun _ => none⟩] else []
+      if i = 0 then [{ key := 5, env := fun _ => none }] else if i = 1 then [{ key := 150, env := fun _ => none }]
+      else if i = 2 then [{ key := 250, env := fun _ => none }] else []
     routeStmt (rangeRule 4) (some c) = some [0, 1] ∧ proxyAffected c tbl [0, 1] = 2 := by
   simp [routeStmt, route, rangeRule, rangeLit, findTableIndexes, adjust, makeList, interList,
     List.range, List.range.loop, proxyAffected, mergeExecResult, mergeStep, matching, eval, Cmp.holds]
@@ -330,5 +331,539 @@ theorem calendar_exec_sum (k : CalKind) (idxs : List Int) (hs : Sorted idxs) (of
       ⟨⟨hs, fun i hi row hrow => (htbl i hi row hrow).2, fun i hi => sorted_bounds idxs hs i hi⟩,
         fun i hi row hrow => (htbl i hi row hrow).1⟩
       (hlits ▸ unix_litsOK k idxs _ _ (fixedZone_ok off) vs hvs) routed h
+
+/-! ### Whole statements: LIMIT, ORDER BY, multi-table forms, sub-queries
+
+`planModify` is `HandleUpdatePlan` / `HandleDeletePlan`; `proxyChosen` / `proxyAfter` is what the
+routed backends do with the statements the plan sends them, `singleChosen` / `singleAfter` what a
+single database holding every sub table does with the statement the client sent. -/
+
+
+/-! ### Whole statements: LIMIT, ORDER BY, multi-table forms, sub-queries
+
+`planModify` is `HandleUpdatePlan` / `HandleDeletePlan`; `proxyChosen` / `proxyAfter` is what the
+routed backends do with the statements the plan sends them, `singleChosen` / `singleAfter` what a
+single database holding every sub table does with the statement the client sent. -/
+
+/-- What an accepted statement looks like: every other form is rejected. -/
+theorem planModify_ok_iff (r : Rule) (key : String) (st : Stmt) (routed : List Int) :
+    planModify r key st = .ok routed ↔
+      st.multi = false ∧
+      (st.isUpdate = true → handleUpdateAssignmentList key st.set = .accept) ∧
+      (st.cond.isSome = true → ∀ k ∈ st.subs, k = SubKind.value) ∧
+      routeStmt r st.cond = some routed ∧
+      (∀ it ∈ st.order, it.ok = true) ∧
+      ¬ (st.order ≠ [] ∧ st.limit.isSome = true ∧ routed.length > 1) := by
+  unfold planModify
+  cases st.multi <;> cases st.isUpdate <;> cases handleUpdateAssignmentList key st.set <;>
+    cases routeStmt r st.cond <;> cases st.cond.isSome <;> simp
+  all_goals (repeat' split)
+  all_goals grind
+
+theorem flatMap_filter_of_nil {α : Type} (g : Int → List α) (p : Int → Bool) (l : List Int)
+    (h : ∀ i ∈ l, p i = false → g i = []) : (l.filter p).flatMap g = l.flatMap g := by
+  induction l with
+  | nil => rfl
+  | cons a as ih =>
+    have ih' := ih (fun i hi => h i (by simp [hi]))
+    cases hp : p a with
+    | true => simp [hp, ih']
+    | false => simp [hp, ih', h a (by simp) hp]
+
+theorem flatMap_nil_of_nil {α : Type} (g : Int → List α) (l : List Int) (h : ∀ i ∈ l, g i = []) :
+    l.flatMap g = [] := by
+  induction l with
+  | nil => rfl
+  | cons a as ih => simp [h a (by simp), ih (fun i hi => h i (by simp [hi]))]
+
+theorem filter_flatMap_tbl (p : Row → Bool) (tbl : Int → List Row) (l : List Int) :
+    (l.flatMap tbl).filter p = l.flatMap (fun i => (tbl i).filter p) := by
+  induction l with
+  | nil => rfl
+  | cons a as ih => simp [List.flatMap_cons, List.filter_append, ih]
+
+theorem routeStmt_subset (r : Rule) (c : Option Cond) (routed : List Int) (h : routeStmt r c = some routed) :
+    ∀ i ∈ routed, i ∈ r.idxs := by
+  unfold routeStmt at h
+  cases c with
+  | none => simp at h; subst h; intro i hi; exact hi
+  | some c =>
+    simp only at h
+    cases hr : route r c with
+    | none => simp [hr] at h
+    | some res =>
+      obtain ⟨has, l⟩ := res
+      simp only [hr, Option.some.injEq] at h
+      subst h
+      intro i hi
+      cases has with
+      | false => simpa using hi
+      | true => simp only [↓reduceIte] at hi; exact (interList_mem_left _ _ i hi).1
+
+/-- The selected rows, sub table by sub table, are the selected rows of the union: no selected row
+    lives in a sub table that was not routed to (`exec_sum` as an equation between lists of rows). -/
+theorem filter_routed (r : Rule) (pv : Int → Int) (tbl : Int → List Row) (c : Option Cond)
+    (ht : TablesOK r pv tbl) (hl : ∀ c', c = some c' → LitsOK r pv (shardLits c')) (routed : List Int)
+    (h : routeStmt r c = some routed) :
+    routed.flatMap (fun i => (tbl i).filter (selects c)) = (r.idxs.flatMap tbl).filter (selects c) := by
+  rw [filter_flatMap_tbl]
+  cases c with
+  | none => simp [routeStmt] at h; subst h; rfl
+  | some c =>
+    have hl := hl c rfl
+    simp only [routeStmt] at h
+    cases hr : route r c with
+    | none => simp [hr] at h
+    | some res =>
+      obtain ⟨has, l⟩ := res
+      simp only [hr, Option.some.injEq] at h
+      cases has with
+      | false => simp at h; subst h; rfl
+      | true =>
+        simp only [↓reduceIte] at h; subst h
+        have hsel : ∀ i, (tbl i).filter (selects (some c)) = [] ↔ matching c (tbl i) = 0 := by
+          intro i; unfold matching selects; rw [List.length_eq_zero_iff]
+        by_cases hne : ∃ i ∈ r.idxs, ∃ row, row ∈ tbl i
+        · obtain ⟨i, hi, row, hrow⟩ := hne
+          have hp := ht.placed i hi row hrow
+          have hrowok : RowOK r pv row.key :=
+            ⟨ht.sorted, by rw [hp]; exact hi, by rw [hp]; exact (ht.bounds i hi).1, by rw [hp]; exact (ht.bounds i hi).2⟩
+          have hs := (route_inv r pv row.key row.env hrowok c hl l hr).1
+          rw [interList_eq_filter _ _ ht.sorted hs]
+          apply flatMap_filter_of_nil
+          intro j hj hnot
+          simp at hnot
+          exact (hsel j).2 (matching_zero_of_not_routed r pv tbl c ht hl l hr j hj hnot)
+        · have hz : ∀ i ∈ r.idxs, (tbl i).filter (selects (some c)) = [] := by
+            intro i hi
+            have : tbl i = [] := by
+              cases ht' : tbl i with
+              | nil => rfl
+              | cons a as => exact absurd ⟨i, hi, a, by simp [ht']⟩ hne
+            simp [this]
+          rw [flatMap_nil_of_nil _ _ (fun i hi => hz i (interList_mem_left _ _ i hi).1),
+            flatMap_nil_of_nil _ _ hz]
+
+theorem pick_nil (le : Row → Row → Bool) (limit : Option Nat) : pick le limit [] = [] := by
+  cases limit <;> simp [pick]
+
+/-- the rows a database changes are rows of the table -/
+theorem chosen_subset (c : Option Cond) (le : Row → Row → Bool) (limit : Option Nat) (t : List Row) :
+    ∀ x ∈ chosen c le limit t, x ∈ t := by
+  intro x hx
+  unfold chosen pick at hx
+  cases limit with
+  | none => simp only at hx; exact (List.mem_filter.1 hx).1
+  | some n =>
+    simp only at hx
+    have := List.mem_of_mem_take hx
+    rw [List.mem_mergeSort] at this
+    exact (List.mem_filter.1 this).1
+
+/-- … and rows the WHERE clause selects -/
+theorem chosen_selected (c : Option Cond) (le : Row → Row → Bool) (limit : Option Nat) (t : List Row) :
+    ∀ x ∈ chosen c le limit t, selects c x = true := by
+  intro x hx
+  unfold chosen pick at hx
+  cases limit with
+  | none => simp only at hx; exact (List.mem_filter.1 hx).2
+  | some n =>
+    simp only at hx
+    have := List.mem_of_mem_take hx
+    rw [List.mem_mergeSort] at this
+    exact (List.mem_filter.1 this).2
+
+/-- the LIMIT forms the proxy executes exactly: no LIMIT, or at most one routed sub table.
+    `hf` is `filter_routed` / `filter_routed_on`. -/
+theorem rows_exact_core (tbl : Int → List Row) (c : Option Cond)
+    (le : Row → Row → Bool) (limit : Option Nat) (idxs routed : List Int)
+    (hf : routed.flatMap (fun i => (tbl i).filter (selects c)) = (idxs.flatMap tbl).filter (selects c))
+    (hlim : limit = none ∨ routed.length ≤ 1) :
+    proxyChosen c le limit tbl routed = singleChosen c le limit tbl idxs := by
+  unfold proxyChosen singleChosen chosen
+  rw [← hf]
+  rcases hlim with hlim | hlim
+  · subst hlim; simp [pick]
+  · match routed, hlim with
+    | [], _ => simp [pick_nil]
+    | [i], _ => simp
+    | _ :: _ :: _, hlim => simp at hlim
+
+theorem rows_exact_of (r : Rule) (pv : Int → Int) (tbl : Int → List Row) (c : Option Cond)
+    (le : Row → Row → Bool) (limit : Option Nat)
+    (ht : TablesOK r pv tbl) (hl : ∀ c', c = some c' → LitsOK r pv (shardLits c')) (routed : List Int)
+    (h : routeStmt r c = some routed) (hlim : limit = none ∨ routed.length ≤ 1) :
+    proxyChosen c le limit tbl routed = singleChosen c le limit tbl r.idxs :=
+  rows_exact_core tbl c le limit r.idxs routed (filter_routed r pv tbl c ht hl routed h) hlim
+
+/-- an accepted statement outside the open finding has no LIMIT or at most one routed sub table -/
+theorem accepted_limit_shape (r : Rule) (key : String) (st : Stmt) (routed : List Int)
+    (h : planModify r key st = .ok routed)
+    (hlim : ¬ (st.limit.isSome = true ∧ st.order = [] ∧ routed.length > 1)) :
+    st.limit = none ∨ routed.length ≤ 1 := by
+  have hol := ((planModify_ok_iff r key st routed).1 h).2.2.2.2.2
+  cases hlm : st.limit with
+  | none => exact Or.inl rfl
+  | some n =>
+    right
+    have hs : st.limit.isSome = true := by simp [hlm]
+    by_cases ho : st.order = []
+    · have : ¬ routed.length > 1 := fun hgt => hlim ⟨hs, ho, hgt⟩
+      omega
+    · have : ¬ routed.length > 1 := fun hgt => hol ⟨ho, hs, hgt⟩
+      omega
+
+/-- **C05 (exactly the matching rows), every statement form.**  For every rule, table contents
+    placed by the rule, and UPDATE / DELETE the planner accepts — any WHERE tree, ORDER BY list,
+    LIMIT, SET list; the multi-table forms, the sub-queries that read a table and ORDER BY … LIMIT
+    over several sub tables are not accepted (`planModify_ok_iff`) — the rows the routed backends
+    change are, row for row, the rows a single database holding every sub table changes.
+
+    Full statement: the same without `hlim`.  It does not hold for the code as it is: LIMIT
+    without ORDER BY is sent unchanged to every routed sub table, each of which changes up to `n`
+    rows (`limit_per_sub_table_witness`; the repository's own tests fix this behaviour:
+    TestMycatShardUpdateWithLimit, TestMycatShardDeleteWithLimit). -/
+theorem modify_rows_exact_partial (r : Rule) (key : String) (pv : Int → Int) (tbl : Int → List Row)
+    (st : Stmt) (le : Row → Row → Bool)
+    (ht : TablesOK r pv tbl) (hl : ∀ c, st.cond = some c → LitsOK r pv (shardLits c)) (routed : List Int)
+    (h : planModify r key st = .ok routed)
+    (hlim : ¬ (st.limit.isSome = true ∧ st.order = [] ∧ routed.length > 1)) :
+    proxyChosen st.cond le st.limit tbl routed = singleChosen st.cond le st.limit tbl r.idxs :=
+  rows_exact_of r pv tbl st.cond le st.limit ht hl routed ((planModify_ok_iff r key st routed).1 h).2.2.2.1
+    (accepted_limit_shape r key st routed h hlim)
+
+/-- **Whatever the statement** (no residual hypothesis, the open finding included): every row a
+    backend changes is a row the WHERE clause selects, and it lives in a routed sub table. -/
+theorem modify_only_matching_rows (c : Option Cond) (le : Row → Row → Bool) (limit : Option Nat)
+    (tbl : Int → List Row) (routed : List Int) :
+    ∀ x ∈ proxyChosen c le limit tbl routed, selects c x = true ∧ ∃ i ∈ routed, x ∈ tbl i := by
+  intro x hx
+  simp only [proxyChosen, List.mem_flatMap] at hx
+  obtain ⟨i, hi, hxi⟩ := hx
+  exact ⟨chosen_selected c le limit (tbl i) x hxi, i, hi, chosen_subset c le limit (tbl i) x hxi⟩
+
+theorem sum_length_flatMap {α : Type} (g : Int → List α) (l : List Int) :
+    (l.map fun i => (g i).length).sum = (l.flatMap g).length := by
+  induction l with
+  | nil => rfl
+  | cons a as ih => simp only [List.map_cons, List.sum_cons, List.flatMap_cons, List.length_append, ih]
+
+/-- the count the proxy reports is the number of rows its backends change -/
+theorem proxyCount_eq (c : Option Cond) (le : Row → Row → Bool) (limit : Option Nat)
+    (tbl : Int → List Row) (routed : List Int) :
+    proxyCount c le limit tbl routed = (proxyChosen c le limit tbl routed).length := by
+  unfold proxyCount proxyChosen
+  rw [mergeExec_affected, List.map_map, ← sum_length_flatMap]
+  rfl
+
+/-- **C05 (affected rows), every statement form**: the reported count is the number of rows a
+    single database changes (`exec_sum` for statements with ORDER BY / LIMIT; same residue). -/
+theorem modify_count_exact_partial (r : Rule) (key : String) (pv : Int → Int) (tbl : Int → List Row)
+    (st : Stmt) (le : Row → Row → Bool)
+    (ht : TablesOK r pv tbl) (hl : ∀ c, st.cond = some c → LitsOK r pv (shardLits c)) (routed : List Int)
+    (h : planModify r key st = .ok routed)
+    (hlim : ¬ (st.limit.isSome = true ∧ st.order = [] ∧ routed.length > 1)) :
+    proxyCount st.cond le st.limit tbl routed = (singleChosen st.cond le st.limit tbl r.idxs).length := by
+  rw [proxyCount_eq, modify_rows_exact_partial r key pv tbl st le ht hl routed h hlim]
+
+/-- a row id names one row position of one sub table -/
+def IdsDistinct (tbl : Int → List Row) (idxs : List Int) : Prop :=
+  ∀ i ∈ idxs, ∀ j ∈ idxs, ∀ x ∈ tbl i, ∀ y ∈ tbl j, x.id = y.id → i = j
+
+theorem mem_ids_iff (c : Option Cond) (le : Row → Row → Bool) (limit : Option Nat)
+    (tbl : Int → List Row) (idxs routed : List Int) (hid : IdsDistinct tbl idxs)
+    (hsub : ∀ j ∈ routed, j ∈ idxs) (i : Int) (hi : i ∈ idxs) (x : Row) (hx : x ∈ tbl i) :
+    ((proxyChosen c le limit tbl routed).map (·.id)).contains x.id =
+      (routed.contains i && ((chosen c le limit (tbl i)).map (·.id)).contains x.id) := by
+  rw [Bool.eq_iff_iff]
+  simp only [List.contains_iff_mem, List.mem_map, Bool.and_eq_true, proxyChosen, List.mem_flatMap]
+  constructor
+  · rintro ⟨y, ⟨j, hj, hy⟩, hyx⟩
+    have hyt := chosen_subset c le limit (tbl j) y hy
+    have := hid i hi j (hsub j hj) x hx y hyt hyx.symm
+    subst this
+    exact ⟨hj, y, hy, hyx⟩
+  · rintro ⟨hj, y, hy, hyx⟩
+    exact ⟨y, ⟨i, hj, hy⟩, hyx⟩
+
+theorem applyChosen_congr (isUpdate : Bool) (upd : Row → Row) (ids ids' : List Nat) (t : List Row)
+    (h : ∀ x ∈ t, ids.contains x.id = ids'.contains x.id) :
+    applyChosen isUpdate upd ids t = applyChosen isUpdate upd ids' t := by
+  unfold applyChosen
+  cases isUpdate with
+  | true =>
+    simp only [↓reduceIte]
+    apply List.map_congr_left
+    intro x hx; rw [h x hx]
+  | false =>
+    simp only [Bool.false_eq_true, ↓reduceIte]
+    apply List.filter_congr
+    intro x hx; rw [h x hx]
+
+theorem applyChosen_none (isUpdate : Bool) (upd : Row → Row) (ids : List Nat) (t : List Row)
+    (h : ∀ x ∈ t, ids.contains x.id = false) : applyChosen isUpdate upd ids t = t := by
+  unfold applyChosen
+  cases isUpdate with
+  | true =>
+    simp only [↓reduceIte]
+    conv => rhs; rw [← List.map_id t]
+    apply List.map_congr_left
+    intro x hx; simp only [h x hx, Bool.false_eq_true, ↓reduceIte, id_eq]
+  | false =>
+    simp only [Bool.false_eq_true, ↓reduceIte]
+    rw [List.filter_eq_self]
+    intro x hx; simp only [h x hx, Bool.not_false]
+
+theorem tables_exact_core (isUpdate : Bool) (upd : Row → Row) (c : Option Cond) (le : Row → Row → Bool)
+    (limit : Option Nat) (tbl : Int → List Row) (idxs routed : List Int)
+    (hrows : proxyChosen c le limit tbl routed = singleChosen c le limit tbl idxs)
+    (hsub : ∀ j ∈ routed, j ∈ idxs) (hid : IdsDistinct tbl idxs) :
+    ∀ i ∈ idxs, proxyAfter isUpdate upd c le limit tbl routed i = singleAfter isUpdate upd c le limit tbl idxs i := by
+  intro i hi
+  unfold proxyAfter singleAfter
+  rw [← hrows]
+  by_cases hri : routed.contains i = true
+  · simp only [hri, ↓reduceIte]
+    apply applyChosen_congr
+    intro x hx
+    rw [mem_ids_iff c le limit tbl idxs routed hid hsub i hi x hx, hri, Bool.true_and]
+  · simp only [hri, Bool.false_eq_true, ↓reduceIte]
+    symm
+    apply applyChosen_none
+    intro x hx
+    rw [mem_ids_iff c le limit tbl idxs routed hid hsub i hi x hx]
+    have : routed.contains i = false := by simpa using hri
+    rw [this, Bool.false_and]
+
+/-- **C05 (the tables afterwards), every statement form.**  After an accepted UPDATE / DELETE every
+    sub table holds, row for row, what it would hold had a single database holding all sub tables
+    executed the client's statement: the rows named by the statement are updated / gone, every
+    other row — in particular every row of a sub table that was not routed to — is untouched.
+    Full statement: without `hlim` (see `modify_rows_exact_partial`). -/
+theorem modify_tables_exact_partial (r : Rule) (key : String) (pv : Int → Int) (tbl : Int → List Row)
+    (st : Stmt) (le : Row → Row → Bool) (upd : Row → Row)
+    (ht : TablesOK r pv tbl) (hl : ∀ c, st.cond = some c → LitsOK r pv (shardLits c))
+    (hid : IdsDistinct tbl r.idxs) (routed : List Int)
+    (h : planModify r key st = .ok routed)
+    (hlim : ¬ (st.limit.isSome = true ∧ st.order = [] ∧ routed.length > 1)) :
+    ∀ i ∈ r.idxs, proxyAfter st.isUpdate upd st.cond le st.limit tbl routed i =
+      singleAfter st.isUpdate upd st.cond le st.limit tbl r.idxs i :=
+  tables_exact_core st.isUpdate upd st.cond le st.limit tbl r.idxs routed
+    (modify_rows_exact_partial r key pv tbl st le ht hl routed h hlim)
+    (routeStmt_subset r st.cond routed ((planModify_ok_iff r key st routed).1 h).2.2.2.1) hid
+
+/-- **C05 (never moves a row), every statement form.**  Whatever the proxy executes, every row
+    is afterwards in the sub table its sharding value is placed in — provided the update leaves
+    the sharding value alone, which is what an accepted SET list guarantees
+    (`accepted_set_spares_key`, `key_unchanged`). -/
+theorem modify_never_moves (r : Rule) (pv : Int → Int) (tbl : Int → List Row)
+    (isUpdate : Bool) (upd : Row → Row) (c : Option Cond) (le : Row → Row → Bool) (limit : Option Nat)
+    (ht : TablesOK r pv tbl) (hupd : ∀ row, (upd row).key = row.key) (routed : List Int) :
+    ∀ i ∈ r.idxs, ∀ x ∈ proxyAfter isUpdate upd c le limit tbl routed i, pv x.key = i := by
+  intro i hi x hx
+  unfold proxyAfter at hx
+  split at hx
+  · unfold applyChosen at hx
+    split at hx
+    · simp only [List.mem_map] at hx
+      obtain ⟨y, hy, rfl⟩ := hx
+      split
+      · rw [hupd]; exact ht.placed i hi y hy
+      · exact ht.placed i hi y hy
+    · exact ht.placed i hi x (List.mem_filter.1 hx).1
+  · exact ht.placed i hi x hx
+
+/-- an accepted UPDATE assigns the sharding column in no spelling -/
+theorem accepted_set_spares_key (r : Rule) (key : String) (st : Stmt) (routed : List Int)
+    (h : planModify r key st = .ok routed) (hu : st.isUpdate = true) :
+    ∀ t ∈ st.set, t.name ≠ key :=
+  no_move key st.set (((planModify_ok_iff r key st routed).1 h).2.1 hu)
+
+/-- the forms that are rejected, one by one -/
+theorem multi_table_rejected (r : Rule) (key : String) (st : Stmt) (h : st.multi = true) :
+    planModify r key st = .error .multiTable := by
+  simp [planModify, h]
+
+theorem table_subquery_rejected (r : Rule) (key : String) (st : Stmt) (routed : List Int)
+    (hc : st.cond.isSome = true) (k : SubKind) (hk : k ∈ st.subs) (hne : k ≠ .value) :
+    planModify r key st ≠ .ok routed := by
+  intro h
+  exact hne (((planModify_ok_iff r key st routed).1 h).2.2.1 hc k hk)
+
+theorem accept_no_sub (key : String) (ts : List Target) (h : handleUpdateAssignmentList key ts = .accept) :
+    ∀ t ∈ ts, t.sub = false := by
+  induction ts with
+  | nil => simp
+  | cons t ts ih =>
+    simp only [handleUpdateAssignmentList] at h
+    cases hc : checkTarget key t with
+    | rejectKey => simp [hc] at h
+    | rejectOther => simp [hc] at h
+    | accept =>
+      simp only [hc] at h
+      intro t' ht'
+      simp at ht'
+      rcases ht' with rfl | ht'
+      · unfold checkTarget checkValue at hc
+        cases hs : t'.sub with
+        | false => rfl
+        | true => cases hq : t'.qual <;> simp [hq, hs] at hc <;> split at hc <;> simp at hc
+      · exact ih h t' ht'
+
+theorem set_subquery_rejected (r : Rule) (key : String) (st : Stmt) (routed : List Int)
+    (hu : st.isUpdate = true) (t : Target) (ht : t ∈ st.set) (hs : t.sub = true) :
+    planModify r key st ≠ .ok routed := by
+  intro h
+  have := accept_no_sub key st.set (((planModify_ok_iff r key st routed).1 h).2.1 hu) t ht
+  simp [hs] at this
+
+theorem order_limit_multi_rejected (r : Rule) (key : String) (st : Stmt) (routed : List Int)
+    (ho : st.order ≠ []) (hl : st.limit.isSome = true) (hn : routed.length > 1) :
+    planModify r key st ≠ .ok routed := by
+  intro h
+  exact ((planModify_ok_iff r key st routed).1 h).2.2.2.2.2 ⟨ho, hl, hn⟩
+
+/-! ### Whole statements on the calendar rules -/
+
+theorem filter_routed_on (V : Int → Prop) (r : Rule) (pv : Int → Int) (tbl : Int → List Row) (c : Option Cond)
+    (ht : TablesOKOn V r pv tbl) (hl : ∀ c', c = some c' → LitsOKOn V r pv (shardLits c')) (routed : List Int)
+    (h : routeStmt r c = some routed) :
+    routed.flatMap (fun i => (tbl i).filter (selects c)) = (r.idxs.flatMap tbl).filter (selects c) := by
+  rw [filter_flatMap_tbl]
+  cases c with
+  | none => simp [routeStmt] at h; subst h; rfl
+  | some c =>
+    have hl := hl c rfl
+    simp only [routeStmt] at h
+    cases hr : route r c with
+    | none => simp [hr] at h
+    | some res =>
+      obtain ⟨has, l⟩ := res
+      simp only [hr, Option.some.injEq] at h
+      cases has with
+      | false => simp at h; subst h; rfl
+      | true =>
+        simp only [↓reduceIte] at h; subst h
+        have hsel : ∀ i, (tbl i).filter (selects (some c)) = [] ↔ matching c (tbl i) = 0 := by
+          intro i; unfold matching selects; rw [List.length_eq_zero_iff]
+        by_cases hne : ∃ i ∈ r.idxs, ∃ row, row ∈ tbl i
+        · obtain ⟨i, hi, row, hrow⟩ := hne
+          have hp := ht.placed i hi row hrow
+          have hrowok : RowOK r pv row.key :=
+            ⟨ht.sorted, by rw [hp]; exact hi, by rw [hp]; exact (ht.bounds i hi).1, by rw [hp]; exact (ht.bounds i hi).2⟩
+          have hs := (route_inv_on V r pv row.key row.env hrowok (ht.valid i hi row hrow) c hl l hr).1
+          rw [interList_eq_filter _ _ ht.sorted hs]
+          apply flatMap_filter_of_nil
+          intro j hj hnot
+          simp at hnot
+          exact (hsel j).2 (matching_zero_of_not_routed_on V r pv tbl c ht hl l hr j hj hnot)
+        · have hz : ∀ i ∈ r.idxs, (tbl i).filter (selects (some c)) = [] := by
+            intro i hi
+            have : tbl i = [] := by
+              cases ht' : tbl i with
+              | nil => rfl
+              | cons a as => exact absurd ⟨i, hi, a, by simp [ht']⟩ hne
+            simp [this]
+          rw [flatMap_nil_of_nil _ _ (fun i hi => hz i (interList_mem_left _ _ i hi).1),
+            flatMap_nil_of_nil _ _ hz]
+
+/-- `modify_rows_exact_partial` and `modify_tables_exact_partial` relative to the values `V` a row
+    can hold (same residue `hlim`) -/
+theorem modify_exact_on_partial (V : Int → Prop) (r : Rule) (key : String) (pv : Int → Int)
+    (tbl : Int → List Row) (st : Stmt) (le : Row → Row → Bool) (upd : Row → Row)
+    (ht : TablesOKOn V r pv tbl) (hl : ∀ c, st.cond = some c → LitsOKOn V r pv (shardLits c))
+    (routed : List Int) (h : planModify r key st = .ok routed)
+    (hlim : ¬ (st.limit.isSome = true ∧ st.order = [] ∧ routed.length > 1)) :
+    proxyChosen st.cond le st.limit tbl routed = singleChosen st.cond le st.limit tbl r.idxs ∧
+    proxyCount st.cond le st.limit tbl routed = (singleChosen st.cond le st.limit tbl r.idxs).length ∧
+    (IdsDistinct tbl r.idxs → ∀ i ∈ r.idxs, proxyAfter st.isUpdate upd st.cond le st.limit tbl routed i =
+      singleAfter st.isUpdate upd st.cond le st.limit tbl r.idxs i) := by
+  have hr := ((planModify_ok_iff r key st routed).1 h).2.2.2.1
+  have hrows := rows_exact_core tbl st.cond le st.limit r.idxs routed
+    (filter_routed_on V r pv tbl st.cond ht hl routed hr) (accepted_limit_shape r key st routed h hlim)
+  refine ⟨hrows, by rw [proxyCount_eq, hrows], fun hid => ?_⟩
+  exact tables_exact_core st.isUpdate upd st.cond le st.limit tbl r.idxs routed hrows
+    (routeStmt_subset r st.cond routed hr) hid
+
+/-- **C05 for whole statements on the calendar rules** (`date_year` / `date_month` / `date_day`,
+    any ascending period list, DATETIME column with accepted spellings or integer column with
+    timestamps of a year 0 … 9999 in the zone `off` seconds east of UTC): an accepted UPDATE /
+    DELETE — with ORDER BY, LIMIT, any SET list — changes the rows, reports the count and leaves
+    the tables a single database would.  Residue `hlim` as in `modify_rows_exact_partial`. -/
+theorem calendar_modify_exact_partial (k : CalKind) (idxs : List Int) (hs : Sorted idxs) (off : Int)
+    (key : String) (st : Stmt) (le : Row → Row → Bool) (upd : Row → Row) (tbl : Int → List Row)
+    (routed : List Int) (h : planModify (calRule idxs) key st = .ok routed)
+    (hlim : ¬ (st.limit.isSome = true ∧ st.order = [] ∧ routed.length > 1))
+    (hcol :
+      ((∀ i ∈ idxs, ∀ row ∈ tbl i, VStr row.key ∧ pvStr k row.key = i) ∧
+        ∀ c, st.cond = some c → StrCond k (ShardPlace.civilOfUnix off) (ShardPlace.clockOfUnix off) c) ∨
+      ((∀ i ∈ idxs, ∀ row ∈ tbl i, VUnix (ShardPlace.civilOfUnix off) row.key ∧
+          pvUnix k (ShardPlace.civilOfUnix off) row.key = i) ∧
+        ∀ c, st.cond = some c → UnixCond k (ShardPlace.civilOfUnix off) (ShardPlace.clockOfUnix off) c)) :
+    proxyChosen st.cond le st.limit tbl routed = singleChosen st.cond le st.limit tbl idxs ∧
+    proxyCount st.cond le st.limit tbl routed = (singleChosen st.cond le st.limit tbl idxs).length ∧
+    (IdsDistinct tbl idxs → ∀ i ∈ idxs, proxyAfter st.isUpdate upd st.cond le st.limit tbl routed i =
+      singleAfter st.isUpdate upd st.cond le st.limit tbl idxs i) := by
+  rcases hcol with ⟨htbl, hc⟩ | ⟨htbl, hc⟩
+  · exact modify_exact_on_partial VStr (calRule idxs) key (pvStr k) tbl st le upd
+      ⟨⟨hs, fun i hi row hrow => (htbl i hi row hrow).2, fun i hi => sorted_bounds idxs hs i hi⟩,
+        fun i hi row hrow => (htbl i hi row hrow).1⟩
+      (fun c hcc => by
+        obtain ⟨ss, hss, hlits⟩ := hc c hcc
+        exact hlits ▸ str_litsOK k idxs _ _ ss hss) routed h hlim
+  · exact modify_exact_on_partial (VUnix (ShardPlace.civilOfUnix off)) (calRule idxs) key
+      (pvUnix k (ShardPlace.civilOfUnix off)) tbl st le upd
+      ⟨⟨hs, fun i hi row hrow => (htbl i hi row hrow).2, fun i hi => sorted_bounds idxs hs i hi⟩,
+        fun i hi row hrow => (htbl i hi row hrow).1⟩
+      (fun c hcc => by
+        obtain ⟨vs, hvs, hlits⟩ := hc c hcc
+        exact hlits ▸ unix_litsOK k idxs _ _ (fixedZone_ok off) vs hvs) routed h hlim
+
+/-! ### Witness of the open finding, non-vacuity -/
+
+/-- `DELETE FROM t WHERE k < 200 LIMIT 1` on four range tables of 100 keys -/
+def wStmt (limit : Option Nat) (order : List OrdItem) (c : Cond) : Stmt :=
+  { isUpdate := false, multi := false, set := [], cond := some c, subs := [], order := order, limit := limit }
+
+def wTbl : Int → List Row := fun i =>
+  if i = 0 then [{ key := 5, env := fun _ => none, id := 0 }, { key := 7, env := fun _ => none, id := 1 }]
+  else if i = 1 then [{ key := 150, env := fun _ => none, id := 2 }]
+  else if i = 2 then [{ key := 250, env := fun _ => none, id := 3 }] else []
+
+def wLt200 : Cond := Cond.cmp true false .lt (rangeLit 100 4 200)
+def wEq150 : Cond := Cond.cmp true false .eq (rangeLit 100 4 150)
+
+theorem limit_per_sub_table_witness :
+    planModify (rangeRule 4) "k" (wStmt (some 1) [] wLt200) = .ok [0, 1] ∧
+    (proxyChosen (some wLt200) (fun _ _ => true) (some 1) wTbl [0, 1]).length = 2 ∧
+    (singleChosen (some wLt200) (fun _ _ => true) (some 1) wTbl (rangeRule 4).idxs).length = 1 := by
+  refine ⟨?_, ?_, ?_⟩
+  · simp [planModify, wStmt, wLt200, routeStmt, route, rangeRule, rangeLit, findTableIndexes, adjust, makeList,
+      interList, List.range, List.range.loop]
+  · simp [proxyChosen, chosen, pick, wTbl, wLt200, selects, eval, Cmp.holds, rangeLit]
+  · simp [singleChosen, chosen, pick, wTbl, wLt200, selects, eval, Cmp.holds, rangeLit, rangeRule, makeList,
+      List.range, List.range.loop]
+
+/-- non-vacuity of `modify_rows_exact_partial`: accepted statements on which its last hypothesis holds -/
+example : planModify (rangeRule 4) "k" (wStmt none [.col .none] wLt200) = .ok [0, 1] := by
+  simp [planModify, wStmt, wLt200, routeStmt, route, rangeRule, rangeLit, findTableIndexes, adjust, makeList,
+    interList, List.range, List.range.loop, OrdItem.ok]
+example : planModify (rangeRule 4) "k" (wStmt (some 1) [.col .alias] wEq150) = .ok [1] := by
+  simp [planModify, wStmt, wEq150, routeStmt, route, rangeRule, rangeLit, findTableIndexes, makeList,
+    interList, List.range, List.range.loop, OrdItem.ok]
+/-- ORDER BY … LIMIT over two sub tables is rejected -/
+example : planModify (rangeRule 4) "k" (wStmt (some 1) [.col .none] wLt200) = .error .orderLimit := by
+  simp [planModify, wStmt, wLt200, routeStmt, route, rangeRule, rangeLit, findTableIndexes, adjust, makeList,
+    interList, List.range, List.range.loop, OrdItem.ok]
+/-- `calendar_modify_exact_partial`: an accepted statement on a two-period calendar rule -/
+example : planModify (calRule [2015, 2016]) "k"
+    { isUpdate := true, multi := false, set := [{ qual := .alias, name := "o" }], cond := none, subs := [],
+      order := [.col .none, .col .table], limit := none } = .ok [2015, 2016] := by
+  simp [planModify, handleUpdateAssignmentList, checkTarget, checkValue, routeStmt, calRule, OrdItem.ok]
+example : IdsDistinct wTbl (rangeRule 4).idxs := by
+  intro i hi j hj x hx y hy hxy
+  simp [rangeRule, makeList, List.range, List.range.loop] at hi hj
+  rcases hi with rfl | rfl | rfl | rfl <;> rcases hj with rfl | rfl | rfl | rfl <;>
+    simp [wTbl] at hx hy <;> (try rfl) <;> (rcases hx with rfl | rfl <;> rcases hy with rfl | rfl <;> simp at hxy)
 
 end GaeaVerif.C05
